@@ -45,7 +45,7 @@ def run_histories(o, ctx, tier, seed, tag, n_quick, n_thorough, flt=None, max_he
         o.count("reqs=%d" % len(m["kinds"]))
         for k in m["kinds"]:
             o.count("kind=" + k)
-        if len(m["kinds"]) >= 2 or any(k in ("reqclose", "close", "hookdrop", "hookdropclose", "hookdropclosesend", "closeempty", "closer", "err", "errint", "errclose", "errkind", "silent", "crlfpre", "hookstrip", "bigchunk") or k.startswith("stall") for k in m["kinds"]):
+        if len(m["kinds"]) >= 2 or any(k in ("reqclose", "close", "hookdrop", "hookdropclose", "hookdropclosesend", "closeempty", "closerep", "closer", "err", "errint", "errclose", "errkind", "silent", "crlfpre", "hookstrip", "bigchunk") or k.startswith("stall") for k in m["kinds"]):
             o.nontrivial.add(c)
         if len(o.samples) < 5 and i % 37 == 0:
             o.samples.append({"case": c[:400], "impl": a[:300], "expected": ",".join(e)[:300]})
@@ -186,7 +186,7 @@ def known_c07(o, ctx, k):
 def run_c09(o, ctx, tier, seed, replay=None):
     if replay is not None:
         return run_c07(o, ctx, tier, seed, replay)
-    closing = {"reqclose", "reqnoclose", "close", "err", "errint", "errclose", "errkind", "silent", "crlfpre", "hookstrip", "bigchunk", "hookdrop", "hookdropclose", "hookdropclosesend", "closeempty", "closer"}
+    closing = {"closerep", "reqclose", "reqnoclose", "close", "err", "errint", "errclose", "errkind", "silent", "crlfpre", "hookstrip", "bigchunk", "hookdrop", "hookdropclose", "hookdropclosesend", "closeempty", "closer"}
     run_histories(o, ctx, tier, seed, "c09", 300, 10000, flt=lambda m: bool(closing & set(m["kinds"])), stalls=4)
     # epoll mode decides persist / close through EpollJob::run: the same signals, plus the peer's half-close
     run_halfclose(o, ctx)
